@@ -9,6 +9,7 @@ package http3
 import (
 	"context"
 	"fmt"
+	"runtime"
 	"runtime/debug"
 	"strings"
 	"testing"
@@ -28,6 +29,18 @@ func vqsBubble(tb testing.TB, fn func(t *testing.T)) (inner, outer string) {
 		defer func() {
 			if e := recover(); e != nil {
 				outer = fmt.Sprint(e)
+				if strings.Contains(outer, "deadlock") {
+					// the goroutines that are stuck still exist: show the ones inside bubbles
+					buf := make([]byte, 1<<20)
+					buf = buf[:runtime.Stack(buf, true)]
+					n := 0
+					for _, g := range strings.Split(string(buf), "\n\n") {
+						if strings.Contains(g, "synctest") && !strings.Contains(g, "vqsBubble") && n < 6 {
+							outer += "\n\n" + g
+							n++
+						}
+					}
+				}
 			} else if !completed && inner == "" {
 				outer = "bubble aborted without a panic (t.Fatal/FailNow inside it, or a race report)"
 			}
@@ -103,7 +116,10 @@ func vqsNewPair(t testing.TB) *vqsPair {
 // given offsets (each piece is flushed and delivered before the next one is written),
 // optionally ends it with FIN, and returns the receiving end wrapped the way the package wraps
 // the streams it accepts.
-func (p *vqsPair) sendUni(t testing.TB, wire []byte, cuts []int, fin bool) (w *quic.Stream, rd *stream) {
+//
+// wait must be called before the bubble's main goroutine returns (a writer still sleeping then
+// counts as a deadlock); it returns once every piece has been written.
+func (p *vqsPair) sendUni(t testing.TB, wire []byte, cuts []int, fin bool) (w *quic.Stream, rd *stream, wait func()) {
 	t.Helper()
 	ctx := context.Background()
 	w, err := p.cli.NewSendOnlyStream(ctx)
@@ -115,6 +131,7 @@ func (p *vqsPair) sendUni(t testing.TB, wire []byte, cuts []int, fin bool) (w *q
 			w.CloseWrite()
 		}
 	}
+	wait = func() {}
 	if len(cuts) == 0 {
 		w.Write(wire)
 		w.Flush()
@@ -122,7 +139,10 @@ func (p *vqsPair) sendUni(t testing.TB, wire []byte, cuts []int, fin bool) (w *q
 	} else {
 		w.Write(wire[:cuts[0]])
 		w.Flush()
+		done := make(chan struct{})
+		wait = func() { <-done }
 		go func() {
+			defer close(done)
 			prev := cuts[0]
 			for _, c := range append(append([]int{}, cuts[1:]...), len(wire)) {
 				// virtual time only moves once every goroutine of the bubble is blocked, i.e.
@@ -139,7 +159,7 @@ func (p *vqsPair) sendUni(t testing.TB, wire []byte, cuts []int, fin bool) (w *q
 	if err != nil {
 		t.Fatalf("AcceptStream: %v", err)
 	}
-	return w, newStream(qs)
+	return w, newStream(qs), wait
 }
 
 // vqsVarint is the RFC 9000 section 16 encoding written from the text; size 0 = shortest,
